@@ -58,6 +58,10 @@ structure St where
   accepted : List Nat := []
   /-- ghost: what the kernel copied, in order; `none` = a torn (reset) slot -/
   consumed : List (Option Nat) := []
+  /-- IORING_SETUP_SQPOLL: a kernel thread consumes the queue; `enter` submits nothing itself -/
+  kt : Bool := false
+  /-- SQPOLL: the kernel thread is idle (`IORING_SQ_NEED_WAKEUP` is set in the SQ flags word) -/
+  asleep : Bool := false
   deriving Repr
 
 def head32 (s : St) : Nat := s.H % 4294967296
@@ -129,6 +133,25 @@ def stepEnter (s : St) : St × String :=
     (fun v => match v with | some e => toString e | none => "torn")
   (s', s!"enter {n} consumed {if got.isEmpty then "-" else joinWith "," got}")
 
+/-- SQPOLL: the kernel thread consumes an entry only while it is running. -/
+def stepKernelKt (s : St) : St × String :=
+  if s.asleep then (s, "asleep") else stepKernel s
+
+/-- SQPOLL: the kernel thread goes idle when nothing is pending (it sets
+`IORING_SQ_NEED_WAKEUP`); from then on only an `io_uring_enter` carrying
+`IORING_ENTER_SQ_WAKEUP` makes it run again. -/
+def stepIdle (s : St) : St × String :=
+  if s.kt ∧ s.H = s.T ∧ ¬ s.asleep then ({ s with asleep := true }, "sleep") else (s, "busy")
+
+/-- `Shared::enter` on an SQPOLL ring (mod.rs:176-182): `to_submit = 0`, and
+`IORING_ENTER_SQ_WAKEUP` is passed iff the flags word says `NEED_WAKEUP`; the woken
+kernel thread takes everything that is published. -/
+def stepEnterKt (s : St) : St × String :=
+  let s' := if s.asleep then consumeN (s.T - s.H) { s with asleep := false } else s
+  let got := (s'.consumed.drop s.consumed.length).map
+    (fun v => match v with | some e => toString e | none => "torn")
+  (s', s!"enter 0 consumed {if got.isEmpty then "-" else joinWith "," got}")
+
 /-- A new call of `add` by thread `i` (after the previous one finished). -/
 def restart (s : St) (i : Nat) (entry : Nat) : St × String :=
   match s.thr[i]? with
@@ -181,7 +204,9 @@ def stepLine (s : St) (toks : List String) : St × List String :=
     | some len, some h0, some n =>
       if len == 0 || len > 64 || (len &&& (len - 1)) != 0 || h0 ≥ 4294967296 || n == 0 || n > 6 then
         ({ s with thr := [] }, ["bad-op"])
-      else (init len h0 n, [showState (init len h0 n)])
+      else
+        let kt := findNat "kt" rest == some 1 && findNat "si" rest != some 1
+        ({ init len h0 n with kt := kt }, [showState (init len h0 n)])
     | _, _, _ => (s, ["bad-op"])
   | ["sq", "step", i] =>
     match parseNat i with
@@ -192,10 +217,17 @@ def stepLine (s : St) (toks : List String) : St × List String :=
         let s' := macroStep s i
         (s', [s!"t{i} {(pcOf s' i).map showPc |>.getD "?"} {showState s'}"])
     | none => (s, ["bad-op"])
-  | ["sq", "kernel"] => let (s', o) := stepKernel s; (s', [s!"{o} {showState s'}"])
+  | ["sq", "kernel"] =>
+    let (s', o) := if s.kt then stepKernelKt s else stepKernel s
+    (s', [s!"{o} {showState s'}"])
+  | ["sq", "idle"] =>
+    if s.thr.isEmpty || !s.kt then (s, ["bad-op"])
+    else let (s', o) := stepIdle s; (s', [s!"{o} {showState s'}"])
   | ["sq", "enter"] =>
     if s.thr.isEmpty then (s, ["bad-op"])
-    else let (s', o) := stepEnter s; (s', [s!"{o} {showState s'}"])
+    else
+      let (s', o) := if s.kt then stepEnterKt s else stepEnter s
+      (s', [s!"{o} {showState s'}"])
   | ["sq", "again", i, e] =>
     match parseNat i, parseNat e with
     | some i, some e => let (s', o) := restart s i e; (s', [o])
